@@ -51,6 +51,8 @@ mod verif_witness_c20 {
         let worlds = if thorough { 20_000 } else { 1_500 };
         let mut rng = Rng(0x2545_F491_4F6C_DD1D);
         let mut n = 0;
+        let mut distinct: std::collections::HashSet<(String, String)> = std::collections::HashSet::new();
+        let (mut shown_yes, mut shown_no) = (0, 0);
         for _ in 0..worlds {
             // a guard the documentation calls valid: 1..4 labels, parameters at the start of a label, at most one catch-all, leading
             let n_labels = 1 + rng.below(4);
@@ -82,8 +84,13 @@ mod verif_witness_c20 {
                 let want = model_matches(&guard, &host);
                 assert_eq!(got, want, "VERIF: guard `{text}` (pattern `{}`) vs host `{host}`: the router says {got}, the documented rules say {want}", g.matchit_pattern());
                 n += 1;
+                if text.contains('{') && distinct.insert((text.clone(), host.clone())) {
+                    if want && shown_yes < 3 { shown_yes += 1; println!("VERIF-SAMPLE guard `{text}` pattern `{}` host `{host}` normalised `{}` -> match (as documented)", g.matchit_pattern(), normalise(&host)); }
+                    if !want && shown_no < 3 { shown_no += 1; println!("VERIF-SAMPLE guard `{text}` pattern `{}` host `{host}` normalised `{}` -> no match (as documented)", g.matchit_pattern(), normalise(&host)); }
+                }
             }
         }
+        println!("VERIF-EXPLORED test=an_accepted_guard_matches_exactly_the_hosts_the_documentation_says distinct_nontrivial={} rule=distinct (guard, host) pairs, counted in a set; non-trivial = the guard is templated (has a parameter or a catch-all); hosts are instantiations of the guard with a label altered, dropped or added, or a trailing dot", distinct.len());
         println!("VERIF-BOUNDED test=an_accepted_guard_matches_exactly_the_hosts_the_documentation_says evaluations={n} bound={worlds} pseudo-random documented-valid guards (1-4 labels, parameters with optional literal suffix, leading catch-all, optional trailing dot) x 24 near-miss hosts each, through the real DomainGuard and a real matchit router");
     }
 
@@ -130,12 +137,16 @@ mod verif_witness_c20 {
         let max_len = if thorough { 7 } else { 5 };
         const ALPHABET: [char; 7] = ['a', '1', '-', '.', '{', '}', '*'];
         let mut n = 0usize;
+        let (mut structured, mut accepted) = (0usize, 0usize);
         let mut idx = vec![0usize; 1];
         loop {
             let text: String = idx.iter().map(|i| ALPHABET[*i]).collect();
             let got = DomainGuard::new(text.clone()).is_ok();
             assert_eq!(got, model_valid(&text), "VERIF: `{text}`: accepted = {got}, the documented rules say {}", model_valid(&text));
             n += 1;
+            if text.contains('{') || text.contains('.') { structured += 1; }
+            if got { accepted += 1; if accepted % 97 == 1 && accepted < 400 { println!("VERIF-SAMPLE `{text}` -> accepted (as documented)"); } }
+            else if n % 4001 == 0 { println!("VERIF-SAMPLE `{text}` -> rejected (as documented)"); }
             // next string in length-lexicographic order
             let mut k = idx.len();
             loop {
@@ -145,6 +156,7 @@ mod verif_witness_c20 {
             }
             if idx.len() > max_len { break; }
         }
+        println!("VERIF-EXPLORED test=every_short_string_over_the_guard_alphabet_gets_the_documented_verdict distinct_nontrivial={structured} rule=every string is generated once (length-lexicographic enumeration, so all are distinct); non-trivial = has structure: contains a brace or a dot ({accepted} of all {n} strings are accepted)");
         println!("VERIF-BOUNDED test=every_short_string_over_the_guard_alphabet_gets_the_documented_verdict evaluations={n} bound=every string of length 1..={max_len} over the 7 symbols a 1 - . {{ }} * through the real DomainGuard::new, against a 20-line model of the documented rules");
     }
 
